@@ -2,15 +2,31 @@ package tls
 
 import mrand "math/rand"
 
-// zzStubShuffleOneSwap: Shuffle contract with zero or one arbitrary legal
-// swap(i, j), 0 <= j <= i < n, in both tiers.
+// zzStubShuffleOneSwap: Shuffle contract with zero or one legal swap(i, j),
+// 0 <= j <= i < n: any adjacent pair in the quick tier, any pair in the
+// thorough tier.
 func zzStubShuffleOneSwap(r *mrand.Rand, n int, swap func(i, j int)) {
-	if n < 2 {
+	if n < 2 || zzNoShuffle {
 		return
 	}
 	if verifBool("shuffle-swaps") {
 		i := 1 + verifChoice("shuffle-i", n-1)
-		j := verifChoice("shuffle-j", i+1)
+		j := i - 1 // quick tier: adjacent positions only
+		if verifThorough() {
+			j = verifChoice("shuffle-j", i+1)
+		}
 		swap(i, j)
 	}
+}
+
+// zzNoShuffle disables the shuffle stubs while the harness obtains the
+// reference (declared, unshuffled) spec.
+var zzNoShuffle bool
+
+// zzRefSpec returns the declared spec of id in its declared order.
+func zzRefSpec(id ClientHelloID) (ClientHelloSpec, error) {
+	zzNoShuffle = true
+	s, err := UTLSIdToSpec(id)
+	zzNoShuffle = false
+	return s, err
 }
